@@ -35,6 +35,7 @@ D1Small == { Bin(op, x, y) : op \in {"add", "mul", "div"}, x \in LeavesSmall, y 
 
 \* contexts for the second statement (za is the variable defined by the first)
 Za == V("v_a")
+Ans == V("ans")
 Ctx == { Bin("add", Za, U("m")), Bin("mul", Za, U("s")), Bin("conv", Za, U("cm")), Bin("pow", Za, Two),
          Bin("lt", Za, U("s")), CallF("f_len", <<Za>>), CallF("f_sq", <<Za>>), CallF("f_inf", <<Za>>), CallF("f_sqrt", <<Za>>),
          HeadOf(List2(Za, U("m"))), Fld(Mk(Za, U("s")), "a"), If(Bin("lt", Za, U("m")), Za, U("km")),
@@ -42,7 +43,7 @@ Ctx == { Bin("add", Za, U("m")), Bin("mul", Za, U("s")), Bin("conv", Za, U("cm")
          List2(Za, U("kg")), CallF("f_sum", <<Za, U("s")>>) }
 
 NoExpr == E("none", << >>, "", <<0, 1>>, "")
-Seeds == { [cls |-> c, l |-> x] : c \in {"d1", "d2l", "d2r", "call", "agg", "two", "if", "udef"}, x \in Leaves }
+Seeds == { [cls |-> c, l |-> x] : c \in {"d1", "d2l", "d2r", "call", "agg", "two", "if", "udef", "ans"}, x \in Leaves }
 
 Completions(s) ==
   CASE s.cls = "d1" -> { [e1 |-> e, e2 |-> NoExpr] : e \in { Bin(op, s.l, y) : op \in BinOps, y \in Leaves }
@@ -69,6 +70,12 @@ Completions(s) ==
     [] s.cls = "udef" -> { [e1 |-> Bin(op, s.l, U(u)), e2 |-> NoExpr] : op \in BinOps, u \in {"zbu", "zdu", "zau"} }
                          \cup { [e1 |-> Bin(op, U(u), s.l), e2 |-> NoExpr] : op \in {"sub", "div", "conv"}, u \in {"zbu", "zdu", "zau"} }
                          \cup { [e1 |-> Bin("pow", U(u), Two), e2 |-> Bin("add", Za, Bin("mul", s.l, s.l))] : u \in {"zbu", "zdu"} }
+    \* the last result: an EXPRESSION statement (typed through generic / inferred functions, or directly), then a use of `ans`
+    [] s.cls = "ans" -> { [e1 |-> d, e2 |-> c] :
+                             d \in { s.l, Bin("mul", s.l, U("s")), CallF("f_sq", <<s.l>>), CallF("f_inf", <<s.l>>), CallF("f_sqrt", <<Bin("mul", s.l, s.l)>>),
+                                     CallF("f_sum", <<s.l, s.l>>), Fld(HeadOf(List2(Mk(s.l, U("s")), Mk(U("m"), U("s")))), "a") },
+                             c \in { Ans, Bin("mul", Ans, U("m")), CallF("f_len", <<Ans>>), Bin("pow", Ans, Two) }
+                                   \cup { Bin("add", Ans, y) : y \in LeavesSmall } \cup { Bin("lt", y, Ans) : y \in {U("s"), U("m"), Two} } }
     [] s.cls = "two" -> { [e1 |-> d, e2 |-> c] : d \in { Bin(op, s.l, y) : op \in {"add", "mul", "div"}, y \in LeavesSmall }
                                                     \cup { s.l, Bin("pow", s.l, Two), Bin("pow", s.l, Bin("div", One, Two)), Bin("pow", s.l, Zero) }
                                                     \cup { CallF(f, <<s.l, y>>) : f \in {"f_quot", "f_mix"}, y \in {U("s"), U("m"), Two} },
@@ -84,7 +91,12 @@ Spec == Init /\ [][Next]_vars
 EmptyEnv == [x \in {} |-> Poly]
 T1 == TypeOf(EmptyEnv, cs.e1)
 \* a variable bound to a polymorphic literal is generalised: every use may pick its own dimension
-Env2 == [x \in {"v_a"} |-> T1]
+Env2 == [x \in {"v_a", "ans"} |-> T1]
+RECURSIVE UsesAns(_)
+UsesAns(e) == (e.op = "var" /\ e.name = "ans") \/ \E i \in 1..Len(e.args) : UsesAns(e.args[i])
+\* cases of class `ans`: the first statement is the bare expression; skipped when its type is polymorphic (the type of `ans`
+\* after a dimension-polymorphic literal is not part of this fragment)
+AnsCase == cs.e2.op # "none" /\ UsesAns(cs.e2)
 T2 == IF cs.e2.op = "none" THEN Poly ELSE IF IsErr(T1) THEN T1 ELSE TypeOf(Env2, cs.e2)
 
 ASSUME PrintT(<<"META", ToJson([setup |-> [i \in 1..15 |->
@@ -97,8 +109,8 @@ ASSUME PrintT(<<"META", ToJson([setup |-> [i \in 1..15 |->
 \* MC sanity of the rule set itself: typing is total and well-formed
 TypeTotal == stage = 2 => T1.k \in {"dim", "poly", "bool", "list", "polylist", "struct", "slist", "err"}
 
-EmitCase == stage = 2 =>
-   PrintT(<<"CASE", ToJson([s1 |-> "let v_a = " \o Show(cs.e1), t1 |-> TypeJson(T1),
+EmitCase == (stage = 2 /\ ~(AnsCase /\ T1.k = "poly")) =>
+   PrintT(<<"CASE", ToJson([s1 |-> (IF AnsCase THEN "" ELSE "let v_a = ") \o Show(cs.e1), t1 |-> TypeJson(T1), expr1 |-> AnsCase,
                             s2 |-> IF cs.e2.op = "none" THEN "" ELSE "let v_b = " \o Show(cs.e2),
                             t2 |-> TypeJson(T2)])>>)
 =============================================================================
